@@ -129,9 +129,12 @@ class EarlyStopping(CallbackBase):
         ) - self.value_getter(self.quantity_name)
 
     def _relative_change(self):
-        relative_change = self._change_in_metric() / self.value_getter(
-            self.quantity_name, -self.patience - 1
-        )
+        # float64 division: an earlier value of exactly zero gives inf / nan
+        # (never below the tolerance) instead of raising ZeroDivisionError
+        with np.errstate(divide="ignore", invalid="ignore"):
+            relative_change = np.float64(self._change_in_metric()) / self.value_getter(
+                self.quantity_name, -self.patience - 1
+            )
         return abs(relative_change)
 
     def _absolute_change(self):
